@@ -126,7 +126,7 @@ func psDKG(ids []uint16, t, L int, rng *mrand.Rand, orch string, polIdx int) (ma
 }
 
 func unitC08(e common.Env, p *common.Part) {
-	p.Rule = "PS key generation (directly wired with PRNG delivery order, per-link FIFO or - every sixth configuration - any queued message next; every third configuration through real Loud/Silent schemes) for 2<=t<=n<=5 (thorough 6), party identifier sets 1..n, {1,2,4,..}, {10,20,..} and PRNG 16-bit, message length L=1..4, vectors {all entries empty, all equal, random, one 64 KiB entry}; for EVERY signer subset of size >= t, in PRNG order (every second configuration with one long-lived signer object per party serving all requests, else a fresh one per request): TPS.Sign of the blinded request from the stored share, Prover.UnBlind, ProveKnowledgeOfSignature, Verifier.Verify must all succeed, and all parties report identical public material; plus one in-memory request value (ps.Blind) handed to three signers (ps.SignBlindSignature) twice over: all accept, the request's serialisation is unchanged; distinct key = (n, t, L, id set, vector, subset); non-trivial when the proof was built and verified"
+	p.Rule = "PS key generation (directly wired with PRNG delivery order, per-link FIFO or - every sixth configuration - any queued message next; every third configuration through real Loud/Silent schemes) for 2<=t<=n<=5 (thorough 6), party identifier sets 1..n, {1,2,4,..}, {10,20,..} and PRNG 16-bit, message length L=1..4, vectors {all entries empty, all equal, random, one 64 KiB entry}; for EVERY signer subset of size >= t, in PRNG order (every second configuration with one long-lived signer object per party serving all requests, else a fresh one per request): TPS.Sign of the blinded request from the stored share, Prover.UnBlind, ProveKnowledgeOfSignature, Verifier.Verify must all succeed, and all parties report identical public material; plus three requests through ONE Prover and ONE Verifier object on which Init is called again before each request; plus one in-memory request value (ps.Blind) handed to three signers (ps.SignBlindSignature) twice over: all accept, the request's serialisation is unchanged; distinct key = (n, t, L, id set, vector, subset); non-trivial when the proof was built and verified"
 	type cfg struct {
 		n, t, L int
 		ids     []uint16
@@ -198,6 +198,15 @@ func unitC08(e common.Env, p *common.Part) {
 			}
 		}
 		psSignerCache = nil
+		// LONG-LIVED Prover and Verifier objects: Init is called on the same objects again before every request (the committee's
+		// key reloaded, as a client does after a key-rotation notice), three requests in a row
+		if p.ViolationCount() == 0 {
+			if err := psReinitFlow(c.ids, c.t, c.L, stored, rng); err != nil {
+				p.Violate("ps-completeness/re-initialised-prover-or-verifier", fmt.Sprintf("%s: %v", key, err), map[string]interface{}{"n": c.n, "t": c.t, "L": c.L, "ids": c.ids})
+			} else {
+				p.Count("requests_through_reinitialised_objects", 3)
+			}
+		}
 		p.Count("proofs_verified", int64(proofs))
 		if i%5 == 0 {
 			p.Sample(map[string]interface{}{"n": c.n, "t": c.t, "L": c.L, "ids": c.ids, "wiring": c.orch, "proofs_verified": proofs})
@@ -234,4 +243,57 @@ func unitC08(e common.Env, p *common.Part) {
 			p.Case(key, ok)
 		}
 	}
+}
+
+// psReinitFlow: one Prover and one Verifier object serve three requests, Init being called on them again before each.
+func psReinitFlow(ids []uint16, t, L int, stored map[uint16][]byte, rng *mrand.Rand) (err error) {
+	defer func() {
+		if x := recover(); x != nil {
+			err = fmt.Errorf("the flow through a Prover / Verifier object that was initialised again panicked: %v", x)
+		}
+	}()
+	tpk, e0 := psThresholdPK(ids, t, L, stored[ids[0]], ids[0])
+	if e0 != nil {
+		return fmt.Errorf("ThresholdPK: %v", e0)
+	}
+	pr := &ps.Prover{Logger: common.Nolog{}}
+	var v ps.Verifier
+	for round := 0; round < 3; round++ {
+		if err := pr.Init(curve, L, tpk, append([]uint16{}, ids...)); err != nil {
+			return fmt.Errorf("Prover.Init #%d on the same object: %v", round+1, err)
+		}
+		if err := v.Init(curve, L, tpk); err != nil {
+			return fmt.Errorf("Verifier.Init #%d on the same object: %v", round+1, err)
+		}
+		msg := make([][]byte, L)
+		for i := range msg {
+			msg[i] = []byte(fmt.Sprintf("reinit-%d-%d", round, i))
+		}
+		req, secret := pr.Blind(msg)
+		perm := rng.Perm(len(ids))[:t]
+		var signers []uint16
+		var wits []ps.SignatureWitness
+		for _, x := range perm {
+			sgn := ids[x]
+			sg, err := (scheme{Name: "ps", MsgLen: L}).signerFrom(sgn, ids, t, stored[sgn])
+			if err != nil {
+				return fmt.Errorf("SetShareData(%d): %v", sgn, err)
+			}
+			sig, err := sg.Sign(context.Background(), req.Bytes())
+			if err != nil {
+				return fmt.Errorf("request #%d through a Prover initialised %d times: TPS.Sign(%d): %v", round+1, round+1, sgn, err)
+			}
+			w, err := pr.UnBlind(sgn, sig, &secret)
+			if err != nil {
+				return fmt.Errorf("request #%d: UnBlind(%d): %v", round+1, sgn, err)
+			}
+			signers = append(signers, sgn)
+			wits = append(wits, w)
+		}
+		proof := pr.ProveKnowledgeOfSignature(&secret, signers, wits)
+		if err := v.Verify(proof.Bytes()); err != nil {
+			return fmt.Errorf("request #%d (Prover and Verifier objects initialised %d times with the same key): the proof does not verify: %v", round+1, round+1, err)
+		}
+	}
+	return nil
 }
